@@ -39,6 +39,8 @@ typedef struct {
     unsigned char got[120000]; int gotlen;          /* delivered plaintext */
     char ev[MAXEV][24]; int nev;
     int stuck, fed;
+    int told, untold_at_quiescence; /* completion made known through a return code (HANDSHAKE_COMPLETE or APP_DATA) / not known although complete when the endpoint went idle */
+    int hsc_send, hsc_recv; /* how many times matrixSslSentData / the receive path returned MATRIXSSL_HANDSHAKE_COMPLETE */
     int reqclose_on_send;   /* send-side outcome: kept as a flag because its position relative to receive-side events is decided by the caller's own call order */
 } trace_t;
 typedef struct {
@@ -51,7 +53,7 @@ static int app_total(int role) { return app_len[role][0] + app_len[role][1] + ap
 
 static void ev(trace_t *t, const char *fmt, ...) { if (t->nev < MAXEV) { va_list ap; va_start(ap, fmt); vsnprintf(t->ev[t->nev++], 24, fmt, ap); va_end(ap); } }
 static void drv_policy(drv_t *d);
-static void on_app(mx_ep *e, const unsigned char *pt, uint32 len) { drv_t *d = e->user; if (d->t->gotlen + (int) len < (int) sizeof d->t->got) { memcpy(d->t->got + d->t->gotlen, pt, len); d->t->gotlen += len; } drv_policy(d); }
+static void on_app(mx_ep *e, const unsigned char *pt, uint32 len) { drv_t *d = e->user; d->t->told = 1; if (d->t->gotlen + (int) len < (int) sizeof d->t->got) { memcpy(d->t->got + d->t->gotlen, pt, len); d->t->gotlen += len; } drv_policy(d); }
 static void drv_policy(drv_t *d)
 {
     mx_ep *e = &d->e;
@@ -75,7 +77,7 @@ static void drv_drain(drv_t *d)
         if (t->outlen + m < (int) sizeof t->out) { memcpy(t->out + t->outlen, ob, m); t->outlen += m; }
         MX_ENTER(); int rc = matrixSslSentData(e->ssl, m); MX_LEAVE();
         if (vf_verbose > 1) fprintf(stderr, "  [%s] sent %d of %d -> rc %d (fed so far %d) len=%d\n", e->name, m, n, rc, t->fed, n);
-        if (rc == MATRIXSSL_HANDSHAKE_COMPLETE) e->hsDone = 1;
+        if (rc == MATRIXSSL_HANDSHAKE_COMPLETE) { e->hsDone = 1; t->hsc_send++; t->told = 1; }
         else if (rc == MATRIXSSL_REQUEST_CLOSE) { e->closeReq = 1; t->reqclose_on_send = 1; }
         else if (rc < 0) { ev(t, "SENTERR%d", rc); e->dead = 1; break; }
         drv_policy(d);
@@ -95,7 +97,7 @@ static void drv_feed(drv_t *d, const unsigned char *b, int n, int coalesce)
         int alerts = e->nAlertIn;
         MX_ENTER(); int rc = matrixSslReceivedData(e->ssl, m, &pt, &ptl); MX_LEAVE();
         if (vf_verbose > 1) fprintf(stderr, "  [%s] fed %d -> rc %d (total fed %d)\n", e->name, m, rc, t->fed);
-        rc = mx_process_rc(e, rc, pt, ptl);
+        { int hd = e->hsDone; e->hsDone = 0; rc = mx_process_rc(e, rc, pt, ptl); if (e->hsDone) { t->hsc_recv++; t->told = 1; } e->hsDone |= hd; }
         if (e->nAlertIn > alerts) ev(t, "ALERTIN%d.%d", e->alertLevel, e->alertDesc);
         if (rc < 0) ev(t, "RECVERR%d", rc);
         if (rc == MATRIXSSL_REQUEST_CLOSE) ev(t, "RECV-REQCLOSE");
@@ -170,6 +172,8 @@ static void alone_run(void *a_)
     int pos = 0;
     for (int guard = 0; guard < 2000000; guard++) {
         drv_drain(&D);
+        /* idle point: everything sent, waiting for input.  A completed handshake must have been made known by now */
+        if (matrixSslHandshakeIsComplete(D.e.ssl) && !t->told && !D.e.dead) t->untold_at_quiescence = 1;
         if (pos >= inlen || D.e.dead || (D.e.ssl->flags & SSL_FLAGS_ERROR)) break;
         int lim = pos; while (lim < inlen && need[lim] <= t->outlen) lim++;
         if (lim == pos) { t->stuck = 1; break; }    /* the endpoint has emitted less than in the recording: next bytes may not be delivered yet */
@@ -248,10 +252,14 @@ int main(int argc, char **argv)
                 if (vf_verbose) { fprintf(stderr, "REF  events %s out=%d got=%d reqclose=%d\nTHIS events %s out=%d got=%d reqclose=%d stuck=%d\n", e1, ref.outlen, ref.gotlen, ref.reqclose_on_send, e2, t->outlen, t->gotlen, t->reqclose_on_send, t->stuck);
                     int d0 = 0; while (d0 < t->outlen && d0 < ref.outlen && t->out[d0] == ref.out[d0]) d0++; fprintf(stderr, "first diff at %d; this tail:", d0); for (int i = d0; i < t->outlen && i < d0 + 40; i++) fprintf(stderr, " %02x", t->out[i]); fprintf(stderr, "\n"); }
                 if (strcmp(e1, e2)) report(s, a, "events-differ", desc, "events [%s] vs reference [%s]", e2, e1);
+                /* Which call carries MATRIXSSL_HANDSHAKE_COMPLETE legitimately depends on coalescing (application data in the same
+                   buffer implies it), so the counts are recorded only; but an endpoint that goes idle with a completed handshake
+                   nobody was told about has lost the event. */
+                else if (t->untold_at_quiescence) report(s, a, "completion-never-reported", desc, "handshake complete but neither HANDSHAKE_COMPLETE nor APP_DATA had been returned when the endpoint went idle (send-side notifications %d, receive-side %d)", t->hsc_send, t->hsc_recv);
                 else if (t->gotlen != ref.gotlen || memcmp(t->got, ref.got, ref.gotlen)) report(s, a, "delivered-data-differs", desc, "delivered %d bytes vs reference %d", t->gotlen, ref.gotlen);
                 else if (t->outlen != ref.outlen || memcmp(t->out, ref.out, ref.outlen)) { int d = 0; while (d < t->outlen && d < ref.outlen && t->out[d] == ref.out[d]) d++; report(s, a, "output-differs", desc, "emitted %d bytes vs reference %d, first difference at offset %d", t->outlen, ref.outlen, d); }
                 else if (t->stuck) report(s, a, "output-differs", desc, "endpoint stopped emitting before the reference did (stuck at input offset %d)", t->fed);
-                else vf_stat("traces_equal", 1);
+                else { vf_stat("traces_equal", 1); if (t->hsc_recv + t->hsc_send != ref.hsc_recv + ref.hsc_send) vf_stat("completion_code_coalesced_with_appdata", 1); }
             }
         }
     }
